@@ -47,6 +47,8 @@ const KW_PREFIXES: &[&str] = &[
 pub struct Names {
     used: HashSet<String>,
     pub all: Vec<String>,
+    /// prepended to every fresh name (keeps independently generated units disjoint)
+    pub prefix: String,
 }
 
 impl Names {
@@ -55,7 +57,7 @@ impl Names {
     }
     /// a fresh identifier, unique (case-insensitively) within this generator
     pub fn fresh(&mut self, t: &mut Tape) -> String {
-        let mut s = String::new();
+        let mut s = self.prefix.clone();
         if t.ratio(1, 10) {
             s.push_str(*t.pick(KW_PREFIXES));
             match t.below(3) {
